@@ -401,10 +401,15 @@ impl FsCommand {
             }
             FsCommand::HardLink { target, link, .. } => {
                 let tmp = Self::temp_file(&link.path);
+                // the link is made to the file, also if the retained path is a symbolic link
+                let ln = match fs::symlink_metadata(target.path.to_path_buf()) {
+                    Ok(m) if m.file_type().is_symlink() => "ln -L",
+                    _ => "ln",
+                };
                 let target = target.path.quote();
                 let link = link.path.quote();
                 result.push(format!("mv {} {}", link, tmp.quote()));
-                result.push(format!("ln {target} {link}"));
+                result.push(format!("{ln} {target} {link}"));
                 result.push(format!("rm {}", tmp.quote()));
             }
             FsCommand::RefLink { target, link, .. } => {
